@@ -141,7 +141,7 @@ class Runner:
 
     def run(self):
         import glob
-        for old in glob.glob(os.path.join(VERIF, "replays", "C16-%d-*.json" % self.seed)):
+        for old in glob.glob(os.path.join(launch.OUT, "replays", "C16-%d-*.json" % self.seed)):
             os.unlink(old)
         self.pyc = launch.PycCache("c16")
         try:
@@ -373,9 +373,9 @@ class Runner:
                 "links": (run.get("meta") or {}).get("links") or {}}
         rep = {"property": PROP, "seed": self.seed, "signature": sig, "oracle": v["oracle"], "detail": v["detail"], "hash": run["hash"],
                "spec": spec, "generator_meta": run.get("meta"), "before": v.get("before"), "after": v.get("after")}
-        os.makedirs(os.path.join(VERIF, "replays"), exist_ok=True)
+        os.makedirs(os.path.join(launch.OUT, "replays"), exist_ok=True)
         tag = hashlib.sha256(sig.encode()).hexdigest()[:10]
-        path = os.path.join(VERIF, "replays", "C16-%d-%s.json" % (self.seed, tag))
+        path = os.path.join(launch.OUT, "replays", "C16-%d-%s.json" % (self.seed, tag))
         with open(path, "w") as f:
             json.dump(rep, f, indent=1, sort_keys=True)
         v["replay"] = path
@@ -407,6 +407,7 @@ class Runner:
         evidence = {
             "property_id": PROP, "tier": self.tier.name, "seed": self.seed, "level": "exploration", "wall_s": round(wall, 2), "violations": len(violations),
             "coverage": {
+                "repo": launch.repo_provenance(),
                 "evaluations": len(results),
                 "distinct_nontrivial": len(nontrivial),
                 "rule": "evaluation = one simulated run (generated file tree + seeded operation/fault sequence executed by real pyanalyze in forked process "
@@ -437,8 +438,8 @@ class Runner:
             "assumptions": ["sampling, not enumeration", "programs come from the generator's atom/skeleton grammar (DESIGN.md 5.2)",
                             "the in-process overrides of _run/_apply_changes only observe, rotate the change list and inject the crash; they call the real methods"],
         }
-        os.makedirs(os.path.join(VERIF, "evidence"), exist_ok=True)
-        with open(os.path.join(VERIF, "evidence", "C16.json"), "w") as f:
+        os.makedirs(os.path.join(launch.OUT, "evidence"), exist_ok=True)
+        with open(os.path.join(launch.OUT, "evidence", "C16.json"), "w") as f:
             json.dump(evidence, f, indent=1, sort_keys=True)
         self.log("runs=%d worlds=%d applied_changes=%d raw_violations=%d distinct=%d known=%d wall=%.1fs" % (
             len(results), self.worlds_run, self.stats.get("applied_changes", 0), self.stats.get("violations_raw", 0), len(violations), len(known), wall))
